@@ -27,6 +27,9 @@ pub enum Op {
     SetWeight(u16, u16, u8),
     GraphRoundTrip,
     CloneReplace,
+    /// rebuild through a Graph that additionally has duplicate node weights and parallel edges
+    /// (from_graph documents: equal weights are merged, the last parallel edge is kept)
+    FromGraphWithDuplicates(u16),
 }
 
 #[derive(Debug, Clone, Serialize, Deserialize)]
@@ -54,6 +57,7 @@ fn op_strategy() -> impl Strategy<Value = Op> {
         4 => (s(), s(), 0u8..3).prop_map(|(a, b, k)| Op::SetWeight(a, b, k)),
         2 => Just(Op::GraphRoundTrip),
         1 => Just(Op::CloneReplace),
+        2 => s().prop_map(Op::FromGraphWithDuplicates),
     ]
 }
 
@@ -328,6 +332,32 @@ fn run_with<N: Key, Ty: EdgeType + Clone, S: BuildHasher + Default + Clone>(c: &
             }
             Op::CloneReplace => {
                 g = g.clone();
+            }
+            Op::FromGraphWithDuplicates(sel) => {
+                let mut gr: Graph<N, i32, Ty, u32> = Graph::with_capacity(0, 0);
+                let mut ix = std::collections::BTreeMap::new();
+                let mut dup_ix = std::collections::BTreeMap::new();
+                for (k, &x) in m.nodes.iter().enumerate() {
+                    ix.insert(x, gr.add_node(x));
+                    if (sel >> (k % 16)) & 1 == 1 {
+                        // a second node with the same weight: merged by from_graph
+                        dup_ix.insert(x, gr.add_node(x));
+                    }
+                }
+                for (k, (&(a, b), &w)) in m.edges.iter().enumerate() {
+                    let pick_ix = |x: N, alt: bool| if alt { *dup_ix.get(&x).unwrap_or(&ix[&x]) } else { ix[&x] };
+                    if (sel >> ((k + 3) % 16)) & 1 == 1 {
+                        // an earlier parallel edge with another weight (undirected: in the other orientation)
+                        if m.directed {
+                            gr.add_edge(pick_ix(a, true), pick_ix(b, false), -w - 1);
+                        } else {
+                            gr.add_edge(pick_ix(b, false), pick_ix(a, true), -w - 1);
+                        }
+                    }
+                    gr.add_edge(pick_ix(a, k % 2 == 0), pick_ix(b, k % 3 == 0), w);
+                }
+                g = GraphMap::from_graph(gr);
+                obs.label("from_graph with duplicate node weights / parallel edges");
             }
         }
         observe(&g, &m, &at)?;
